@@ -115,48 +115,59 @@ def drive(lib, name, seed, nsteps, criterion, perturbation, loadings=None, hyps=
             d = [x * (1 + 0.1 * g.uniform(-1, 1)) for x in d3][:n]
             if ax is not None:
                 d[ax] = 0.0
-            isv = b.pack_isv(**{k: v for k, v in ISV_INIT.items()})
-            thf = [0.0] * n
-            esv = b.pack_esv()
-            e0 = [0.0] * n
-            amps = path(lname, d, peak, unload, nsteps, g)
-            a0 = 0.0
-            okl = 0
-            for istep, a1 in enumerate(amps):
-                # integrate [a0, a1], halving the increment on failure
-                todo = [(a0, a1)]
-                depth = 0
-                while todo:
-                    x0, x1 = todo.pop(0)
-                    g0 = [x0 * c for c in d]
-                    g1 = [x1 * c for c in d]
-                    dt = max(abs(x1 - x0), 1e-9) / rate
-                    out("@@C43 STEP %s %s %d %.17g %.17g" % (hyp, lname, istep, x0, x1))
-                    o = b.b.integrate(4, dt, g0, g1, thf, mp, isv, esv, esv)
-                    LIBC.fflush(None)
-                    # largest increment of every internal state variable (the parent needs to know which unknowns moved)
-                    incs = []
-                    for nme, ty, off, sz in b.d["isvs"]:
-                        incs.append("%s=%d=%.3g" % (nme, sz, max(abs(o["isv"][off + k] - isv[off + k]) for k in range(sz)) if o["rc"] >= 0 else 0.0))
-                    out("@@C43 RC %d %s" % (o["rc"], ";".join(incs)))
-                    hres["calls"] += 1
-                    if o["rc"] >= 0 and all(math.isfinite(v) for v in o["thf"]):
-                        thf, isv = o["thf"], o["isv"]
-                        hres["ok"] += 1
-                        okl += 1
+            def run_loading(prestress):
+                init = dict(ISV_INIT)
+                if prestress:
+                    # some criteria have no normal at zero stress (0/0 at the first iterate of a viscoplastic flow): start
+                    # from a tiny elastic strain along the loading direction
+                    init["ElasticStrain"] = [1e-7 * c for c in d]
+                isv = b.pack_isv(**init)
+                thf = [0.0] * n
+                esv = b.pack_esv()
+                e0 = [0.0] * n
+                amps = path(lname, d, peak, unload, nsteps, g)
+                a0 = 0.0
+                okl = 0
+                for istep, a1 in enumerate(amps):
+                    # integrate [a0, a1], halving the increment on failure
+                    todo = [(a0, a1)]
+                    depth = 0
+                    while todo:
+                        x0, x1 = todo.pop(0)
+                        g0 = [x0 * c for c in d]
+                        g1 = [x1 * c for c in d]
+                        dt = max(abs(x1 - x0), 1e-9) / rate
+                        out("@@C43 STEP %s %s %d %.17g %.17g" % (hyp, lname, istep, x0, x1))
+                        o = b.b.integrate(4, dt, g0, g1, thf, mp, isv, esv, esv)
+                        LIBC.fflush(None)
+                        # largest increment of every internal state variable (the parent needs to know which unknowns moved)
+                        incs = []
+                        for nme, ty, off, sz in b.d["isvs"]:
+                            incs.append("%s=%d=%.3g" % (nme, sz, max(abs(o["isv"][off + k] - isv[off + k]) for k in range(sz)) if o["rc"] >= 0 else 0.0))
+                        out("@@C43 RC %d %s" % (o["rc"], ";".join(incs)))
+                        hres["calls"] += 1
+                        if o["rc"] >= 0 and all(math.isfinite(v) for v in o["thf"]):
+                            thf, isv = o["thf"], o["isv"]
+                            hres["ok"] += 1
+                            okl += 1
+                        else:
+                            depth += 1
+                            if depth > 5:
+                                hres["failed"] += 1
+                                todo = []
+                                break
+                            hres["halvings"] += 1
+                            xm = 0.5 * (x0 + x1)
+                            todo = [(x0, xm), (xm, x1)] + todo
                     else:
-                        depth += 1
-                        if depth > 5:
-                            hres["failed"] += 1
-                            todo = []
-                            break
-                        hres["halvings"] += 1
-                        xm = 0.5 * (x0 + x1)
-                        todo = [(x0, xm), (xm, x1)] + todo
-                else:
-                    a0 = a1
-                    continue
-                break  # the step could not be integrated: give up this loading
+                        a0 = a1
+                        continue
+                    break  # the step could not be integrated: give up this loading
+                return okl
+            okl = run_loading(False)
+            if okl == 0:
+                okl = run_loading(True)
+                hres["prestressed"] = hres.get("prestressed", 0) + 1
             hres["loadings"][lname] = okl
         res["hyps"][hyp] = hres
     return res
